@@ -219,6 +219,40 @@ def run(ctx, rep):
                     okg &= ("place:is_local", False) in at
         rep.ob("symtab-partition", "define_symbol:local-slot", loc == 1 and okl, "local_entries is consumed exactly on the is_local edge", ds_.file, ds_.line)
         rep.ob("symtab-partition", "define_symbol:global-slot", glob == 1 and okg, "global_entries is consumed exactly on the !is_local edge", ds_.file, ds_.line)
+    # ---- merged visibility of multiply-defined symbols covers *all* definitions ------------------------------------------------
+    # When a symbol has several definitions the most restrictive visibility of any of them applies (GNU ld): a hidden first definition
+    # overridden by a default one must still end up local / not exported. The merged value must therefore include the first-seen
+    # definition (the map key) as well as every alternative (the map value).
+    rep.rule("visibility-merge", "in process_alternatives the visibility that guards handle_non_default_visibility derives from input_symbol_visibility of the first "
+             "definition (the map key) and, through a max-combining closure, of every alternative")
+    pa = F.body("libwild::symbol_db::process_alternatives")
+    if pa is None:
+        rep.lost("visibility-merge", "symbol_db::process_alternatives")
+    else:
+        pflow = P.flow(pa)
+        vis_calls = [(bi, t) for bi, t in pflow.calls() if (callee_key(t["f"]) or "").endswith("::input_symbol_visibility")]
+        on_key = [bi for bi, t in vis_calls if render(expr_tree(P, pa, t["args"][-1], depth=5, expand_params=0)).endswith("@Some.0.0")]
+        cl_ok = False
+        for c in F.closures_of("libwild::symbol_db::process_alternatives"):
+            names = {(callee_key(t["f"]) or "").split("::")[-1] for _bi, t in P.flow(c).calls()}
+            parent_combines = any((callee_key(t["f"]) or "").split("::")[-1] in ("max", "fold", "reduce", "max_by_key") for _bi, t in pflow.calls())
+            if "input_symbol_visibility" in names and ("max" in names or parent_combines):
+                cl_ok = True
+        guards = [(bi, t) for bi, t in pflow.calls() if (callee_key(t["f"]) or "").endswith("handle_non_default_visibility")]
+        rep.ob("visibility-merge", "first-definition", len(on_key) >= 1, f"{len(on_key)} input_symbol_visibility call(s) on the map key (the first-seen definition)", pa.file, pa.line)
+        rep.ob("visibility-merge", "alternatives-max", cl_ok, "a closure of process_alternatives reads input_symbol_visibility of an alternative and the values are combined with max/fold", pa.file, pa.line)
+        n_g = 0
+        for bi, t in guards:
+            o = pflow.deep_origins(t["args"][-1])
+            from_key = any(x[0] == "call" and x[2] in on_key for x in o)
+            from_fold = any(x[0] == "call" and (x[1] or "").split("::")[-1] in ("fold", "max", "reduce", "max_by_key") for x in o)
+            n_g += 1
+            rep.ob("visibility-merge", f"applied-value#{n_g}", from_key and from_fold,
+                   "the visibility applied to the definitions combines the first definition's and the alternatives'" if from_key and from_fold else
+                   f"the visibility applied here does not derive from {'the first definition' if not from_key else 'the alternatives'}: a hidden/protected definition that is "
+                   "overridden by a default one would be exported", pa.file, t["l"])
+        rep.floor("visibility-merge", "handle_non_default_visibility calls", n_g, 2)
+
     # ---- imports: references from shared objects are looked up under the right version ----------------------------------
     # A symbol the executable defines must be exported when a shared object references it. resolve_symbols visits an object's symbols in
     # chunks of MAX_SYMBOLS_PER_WORK_ITEM and enumerates each chunk from zero; the version of a shared object's symbol is found by its
